@@ -132,6 +132,24 @@ def run(ctx, R):
     R.ob("C49:length/2:clause-order-work-domain-type", kinds == ["work", "domain", "type"],
          "length/2's clauses are %s: expected the working clause, then `integer(N), !, domain_error(..)`, then the type error (a non-integer N must not reach the domain error, an integer "
          "N must not reach the type error)" % kinds, "src/lib/lists.pl length/2")
+    # length/2 terminates on length([a|L], L): the test that finds N aliased to the list's open tail compares N with the
+    # tail '$skip_max_list' left (its 4th argument), not with the list it was given
+    (h, b), ln = cls[0]
+    sk = [c22.unq(g) for g in P.conj(b) if P.functor(c22.unq(g)) == ("$skip_max_list", 4)]
+    alias = []
+    if sk:
+        tail, given, nvar = sk[0][2][3], sk[0][2][2], h[2][1]
+        stack = [b]
+        while stack:
+            x = stack.pop()
+            if x[0] != "cmp":
+                continue
+            if x[1] == "==" and len(x[2]) == 2 and nvar in x[2]:
+                alias.append(x[2][0] if x[2][1] == nvar else x[2][1])
+            stack.extend(x[2])
+    R.ob("C49:length/2:aliasing-test-compares-the-length-with-the-open-tail", bool(sk) and bool(alias) and all(a == tail for a in alias),
+         "length/2 tests whether N is the list's own tail by comparing N with %s; the open tail is the 4th argument of '$skip_max_list' (%s): length([a|L], L) otherwise runs for ever"
+         % ([P.show(a) for a in alias], P.show(sk[0][2][3]) if sk else None), "src/lib/lists.pl length/2")
     negative_maximum_fails_in_both_representations(ctx, R)
 
 
